@@ -11,6 +11,7 @@ EXPLANATION = (
     "Completed (the copy-back is unreachable from the Failed / InProgress arms). Content equality is not decided; fsync of the copies is a power-loss "
     "matter outside the property and is only listed."
     " C29.4: copy_ndb_file / copy_wal_file copy the whole source file (no length-limited reader, counted read or truncation)."
+    " C29.5: restore_from_backup reads only name / is_wal / status of the manifest's file entries."
 )
 
 BM = "nervusdb_storage::backup::BackupManager"
